@@ -293,10 +293,18 @@ def finish(prop, tier, seed, mod, obs, results, t0, args):
             if o.get("ok") is True:
                 validated += 1
             elif o.get("ok") is False:
-                # the solver says the property holds on this path but the native code disagrees:
-                # engine bug (or a modelling gap) -> never a pass
-                inconcl.append(f"{obn} {params}: witness {w} holds symbolically but not "
-                               f"natively: {o.get('detail')}")
+                # The native (compiled, unshimmed) code violates the plainly stated property on an input that satisfies
+                # every assumption of the path.  That is a concrete, replayed counterexample - reported as such even
+                # though the symbolic run did not predict it (e.g. IEEE rounding, which the engine does not model).
+                c = {"label": "native-witness:" + str(o.get("label") or o.get("detail"))[:120], "model": w}
+                k = next((k for k in known if _matches(k, obn, c["label"], params)), None)
+                validated += 1
+                if k is not None and k.get("status") == "known":
+                    known_hits.append((k, f"{obn}:{c['label']}", c, params))
+                else:
+                    path = write_replay(prop, obn, params, c)
+                    violations.append((f"{obn}:{c['label']}", c, params, path,
+                                       str(o.get("detail")) + " [found by native witness replay; not predicted symbolically]"))
             else:
                 inconcl.append(f"{obn} {params}: {o.get('detail')}")
     for (obn, params, models, c), out in zip(cex_jobs, outs[len(wit_jobs):]):
